@@ -114,8 +114,13 @@ def run(tier: str) -> int:
         mode = r.choice(["app", "app", "sig"])
         gv = r.choice([4, 6, 8, 9, 10])
         nsubs = r.choice([0, 0, 1, 2, 3])
-        cfg = Cfg(mode=mode, version=gv, subs=nsubs, recursive=nsubs > 0 and r.random() < 0.4, call_bias=0.15 if nsubs else 0.0,
-                  byref=r.random() < 0.2, max_depth=r.choice([3, 4]), max_stmts=r.choice([3, 5, 7]))
+        if r.random() < 0.2:
+            # by-reference stream: ScratchVar parameters mixed with by-value ones (frame-pointer prologues differ)
+            nsubs, gv = r.choice([2, 3]), max(gv, 6)
+            cfg = Cfg(mode=mode, version=gv, subs=nsubs, recursive=False, call_bias=0.35, byref=True, byref_p=0.6, max_depth=3, max_stmts=4)
+        else:
+            cfg = Cfg(mode=mode, version=gv, subs=nsubs, recursive=nsubs > 0 and r.random() < 0.4, call_bias=0.15 if nsubs else 0.0,
+                      byref=r.random() < 0.2, max_depth=r.choice([3, 4]), max_stmts=r.choice([3, 5, 7]))
         g = G(r, cfg)
         p = g.program()
         for k, v in g.stats.items():
